@@ -54,13 +54,15 @@ def configs(draw, pgns, ids):
     return mode, entries
 
 
-def permitted(m, mode, entries):
+def permitted(m, mode, entries, wire_pgn=None):
+    """Decided on the PGN the frame carried on the wire (the message's own PGN attribute must agree with it, see run_case)."""
     nums = {e for e in entries if isinstance(e, int)}
     ids = {e.lower() for e in entries if isinstance(e, str)}
+    pgn = wire_pgn if wire_pgn is not None else m.PGN
     if mode == "exclude":
-        return not (m.PGN in nums or m.id.lower() in ids)
+        return not (pgn in nums or m.id.lower() in ids)
     if mode == "include" and entries:
-        return m.PGN in nums or m.id.lower() in ids
+        return pgn in nums or m.id.lower() in ids
     return True
 
 
@@ -90,7 +92,9 @@ def run_case(mode, entries, items, build_map=False):
             if f is not None:
                 out.append((f"C10|{mode}|message-from-nothing", f"position {pos}: unfiltered decoder returns nothing, filtered returns {f.id}", case))
             continue
-        ok = permitted(u, mode, entries)
+        if it.get("pgn") and u.PGN != it["pgn"]:
+            out.append((f"C10|{mode}|message-pgn", f"position {pos}: a frame of PGN {it['pgn']} was returned as a message of PGN {u.PGN} ({u.id})", case))
+        ok = permitted(u, mode, entries, it.get("pgn") or None)
         kind = "claim" if u.PGN == 60928 else "data"
         by = "mixed" if any(isinstance(e, int) for e in entries) and any(isinstance(e, str) for e in entries) else \
             "ids" if any(isinstance(e, str) for e in entries) else "numbers"
@@ -172,7 +176,8 @@ def _twins(ctx: Ctx, item):
                         items.append({"kind": "single", "pgn": pgn, "src": 1, "dest": dest, "data": payload[:8], "msg": rep})
                 if same_seq and not any(dd.fast for dd in (d1, d2)):
                     continue
-                for mode, entries in (("exclude", [d1.id]), ("exclude", [d2.id.upper()]), ("include", [d2.id]), ("include", [d1.id.lower(), 127250])):
+                for mode, entries in (("exclude", [d1.id]), ("exclude", [d2.id.upper()]), ("include", [d2.id]), ("include", [d1.id.lower(), 127250]),
+                                  ("exclude", [pgn - 1, pgn + 1]), ("include", [pgn - 1, pgn + 1, 127250]), ("exclude", [pgn]), ("include", [pgn])):
                     ctx.count()
                     n += 1
                     ctx.nt((pgn, d1.id, d2.id, mode))
